@@ -7,7 +7,7 @@ git checkout -q -- src tests 2>/dev/null
 eval "$SETUP" >/dev/null 2>&1
 echo "--- baseline demo"; ( eval "$DEMO" ) > /tmp/confirm_base.log 2>&1; B=$?; echo "baseline demo exit=$B"
 git apply mutant_$M.diff || { echo "APPLY FAILED"; exit 2; }
-echo "--- tests with change"; cargo test --offline 2>&1 | grep -E "^test result|FAILED|panicked" | tr '\n' ' '; echo
+echo "--- tests with change"; cargo test --offline --no-fail-fast 2>&1 | grep -E "^test result|FAILED|panicked" | tr '\n' ' '; echo
 cargo build --offline --features circ_verif 2>&1 | grep -E "^error" | head -3
 echo "--- demo with change"; ( eval "$DEMO" ) > /tmp/confirm_mut.log 2>&1; X=$?; echo "mutant demo exit=$X"; tail -4 /tmp/confirm_mut.log
 git checkout -q -- src tests
